@@ -582,3 +582,106 @@ copy_molecule = FunctionContract(
     canary=[("new.citations = self.citations.copy()", "new.citations = self.citations")],
 )
 CONTRACTS.append(copy_molecule)
+
+
+# ------------------------------------------------------------------ MergeAllMolecules.run_system and merge_chains: what is merged into what
+MolM = TKey('MolM')
+MergeEv = TTuple(MolM, MolM, names=['into', 'other'])
+
+
+def merge_world(cx):
+    from pyvc.builtins import list_append
+    mols = cx.val('MOLS_IN', TSeq(MolM))
+    cx.spec_env['MOLS_IN'] = mols
+    MERGES = cx.heap('MERGES', cx.box('MERGES', TSeq(MergeEv)))      # calls of merge_molecule (whose contract is proved above)
+    cx.eng.methods[('MolM', 'merge_molecule')] = lambda e, m, other: list_append(e, MERGES, (m, other))
+    return mols, Obj('System', molecules=Box(TSeq(MolM), mols.e), force_field=Obj('ff'))
+
+
+def setup_mam(cx):
+    mols, system = merge_world(cx)
+    return dict(self=Obj('MergeAllMolecules'), system=system)
+
+
+merge_all = FunctionContract(
+    'vermouth/processors/merge_all_molecules.py', 'MergeAllMolecules.run_system', 'C12', setup=setup_mam, spec_env=dict(MolM=MolM),
+    requires=["len(old(MERGES)) == 0"],
+    ensures=[
+        # every other molecule is merged into the first one, once, in the system's order; the system then holds that one molecule
+        "implies(len(MOLS_IN) > 0, len(system.molecules) == 1 and system.molecules[0] == MOLS_IN[0] and len(MERGES) == len(MOLS_IN) - 1 and "
+        "   forall(lambda k: implies(0 <= k and k < len(MERGES), MERGES[k].into == MOLS_IN[0] and MERGES[k].other == MOLS_IN[k + 1])))",
+        "implies(len(MOLS_IN) == 0, len(system.molecules) == 0 and len(MERGES) == 0)",
+    ],
+    modifies=['system.molecules', 'MERGES'],
+    loops={'L1': LoopSpec(inv=["len(MERGES) == _i and forall(lambda k: implies(0 <= k and k < _i, MERGES[k].into == MOLS_IN[0] and MERGES[k].other == MOLS_IN[k + 1]))",
+                               "len(system.molecules) == len(MOLS_IN)"], modifies=['MERGES'])},
+    canary=[("for other in system.molecules[1:]:", "for other in system.molecules[2:]:"), ("system.molecules = [molecule]", "pass")],
+)
+CONTRACTS.append(merge_all)
+
+
+def setup_mc(cx):
+    mols, system = merge_world(cx)
+    wanted = cx.uf('chains_wanted', [MolM], TBool)          # every chain of the molecule is one of the chains to merge
+    merged_c = z3.Const('MERGED', MolM.sort())
+    cx.spec_env['MERGED'] = SV(MolM, merged_c)
+    chains = Obj('_chains')
+    cx.spec_env['Molecule'] = Builtin(lambda e: SV(MolM, merged_c), 'Molecule')
+    cx.eng.setattr_hooks[('MolM', '_force_field')] = lambda e, m, v: None
+    cx.eng.setattr_hooks[('MolM', 'nrexcl')] = lambda e, m, v: None
+    cx.eng.attr_hooks[('MolM', 'nrexcl')] = lambda e, m: Obj('nrexcl')
+
+    # set(node.get('chain') for node in molecule.nodes.values()): the chains of `molecule`, of which only .issubset(_chains) is used
+    def chains_of(e, env):
+        m = to_z3(env.lookup('molecule'), MolM)
+        o = Obj('chains-of-molecule')
+        o.__dict__['mol'] = m
+        return o
+    chains_of.wants_env = True
+    cx.eng.opaque_exprs["(node.get('chain') for node in molecule.nodes.values())"] = chains_of
+
+    def set_(e, g=None):
+        if not (isinstance(g, Obj) and g.cls == 'chains-of-molecule'):
+            raise EngineError('set() of something else')
+        m = g.__dict__['mol']
+        return Obj('chainset', issubset=Builtin(lambda e2, other: wrap(TBool, wanted(m)) if other is chains else
+                                               (_ for _ in ()).throw(EngineError('issubset of another set')), 'issubset'))
+    cx.spec_env['set'] = Builtin(set_, 'set')
+    return dict(system=system, _chains=chains)
+
+
+SPEC_MC = {
+    'w': "lambda i: chains_wanted(MOLS_IN[i])",
+}
+MC_INV = [
+    # the molecules to merge have been merged into the new molecule, once each and in order ...
+    "len(g_m) == len(MERGES) and forall(lambda k: implies(0 <= k and k < len(MERGES), 0 <= g_m[k] and g_m[k] < {I} and w(g_m[k]) and "
+    "   MERGES[k].into == MERGED and MERGES[k].other == MOLS_IN[g_m[k]]))",
+    "forall(lambda p, q: implies(0 <= p and p < q and q < len(g_m), g_m[p] < g_m[q]))",
+    "forall(lambda i: implies(0 <= i and i < {I} and w(i), i in g_mp and 0 <= g_mp[i] and g_mp[i] < len(g_m) and g_m[g_mp[i]] == i))",
+    "has_merged == (len(MERGES) > 0)",
+    # ... and the new list holds the other molecules in order, with the new molecule where the first merged one was
+    "len(g_n) == len(new_molecules)",
+    "forall(lambda q: implies(0 <= q and q < len(g_n), 0 <= g_n[q] and g_n[q] < {I} and "
+    "   ((new_molecules[q] == MERGED and g_mp[g_n[q]] == 0) if w(g_n[q]) else (new_molecules[q] == MOLS_IN[g_n[q]]))))",
+    "forall(lambda p, q: implies(0 <= p and p < q and q < len(g_n), g_n[p] < g_n[q]))",
+    "forall(lambda i: implies(0 <= i and i < {I} and (not w(i) or g_mp[i] == 0), i in g_np and 0 <= g_np[i] and g_np[i] < len(g_n) and g_n[g_np[i]] == i))",
+]
+merge_chains_loop = FunctionContract(
+    'vermouth/processors/merge_chains.py', 'merge_chains', 'C12', short='merge_chains[which molecules are merged]', setup=setup_mc,
+    spec_defs=SPEC_MC, spec_env=dict(MolM=MolM),
+    region=dict(start="merged = Molecule()"),
+    locals=dict(new_molecules=TSeq(MolM), g_m=TSeq(TInt), g_mp=TMap(TInt, TInt), g_n=TSeq(TInt), g_np=TMap(TInt, TInt), has_merged=TBool),
+    ghost_at={'entry': "g_m = []\ng_mp = {}\ng_n = []\ng_np = {}"},
+    requires=["len(old(MERGES)) == 0"],
+    ensures=[x.format(I='len(MOLS_IN)').replace('new_molecules', 'system.molecules').replace('has_merged == (len(MERGES) > 0)', 'True') for x in MC_INV],
+    modifies=['system.molecules', 'MERGES'],
+    loops={'L1': LoopSpec(inv=[x.format(I='_i') for x in MC_INV] + ["len(system.molecules) == len(MOLS_IN)"],
+                          modifies=['MERGES', 'new_molecules', 'g_m', 'g_mp', 'g_n', 'g_np'],
+                          locals=dict(g_m0=TInt, g_n0=TInt, has_merged=TBool), ghost_pre="g_m0 = len(MERGES)\ng_n0 = len(new_molecules)",
+                          ghost_end="if len(MERGES) > g_m0:\n    g_m.append(_i)\n    g_mp[_i] = len(g_m) - 1\n"
+                                    "if len(new_molecules) > g_n0:\n    g_n.append(_i)\n    g_np[_i] = len(g_n) - 1")},
+    canary=[("if not has_merged:", "if has_merged:"), ("new_molecules.append(molecule)", "pass"),
+            ("merged.merge_molecule(molecule)", "molecule.merge_molecule(merged)")],
+)
+CONTRACTS.append(merge_chains_loop)
